@@ -576,6 +576,7 @@ def rule_d(ck, R):
 
 
 def run(ck):
+    ck.rule('C07.g', 'the receive sink (continuable sink) stores min(n, free space), reports an overflow exactly when octets were dropped, and always consumes what it is given (C09.a re-evaluated)')
     ck.rule('C07.a', 'gating: the payload checksum comparison is skipped only for an unset WITH-PAYLOAD-CRC bit or an empty payload; header acceptance is control-dependent on crc == stored checksum exactly when WITH-HEADER-CRC is set')
     ck.rule('C07.b', 'coverage: encoder and decoder checksum the same words ([0,6), then word 7 with payload CRC), store/read it in word 6; payload plausibility per frame type; checksum variant follows WORD-SIZE-16')
     ck.rule('C07.c', 'classification: error codes per origin; first failure wins; EBADMSG/EILSEQ -> META EHEADERENC/EHEADERCRC; EPROTO/EFAULT -> EPAYLOADCRC/EPAYLOADSIZE for requests only; frames that failed reception never reach the backend nor get acknowledged')
@@ -595,3 +596,6 @@ def run(ck):
     # on is decided by C06.f and re-evaluated here (the tail of a damaged frame is skipped, also across calls)
     from . import c06
     c06.rule_decoder_state(ck, R, rule='C07.f')
+    from .common import reevaluate
+    reevaluate(ck, 'C07.g', 'c09', lambda r, k: r == 'C09.a',
+               'an extended frame that no longer fits the receive block is recorded as an overflow by the receive sink, never parsed truncated')
